@@ -404,10 +404,21 @@ end
 
 /-! ## gymnasium `flatten` / `flatten_space` on Discrete / Dict trees (trusted library, modelled to state what it gives)
 
-`Dict` keeps its sub-spaces sorted by key; `flatten` concatenates the children in THAT order, a `Discrete(n)` leaf becomes a
-one-hot vector of length `n`.  A key of the space that the value lacks makes Python raise KeyError: `none`. -/
+`flatten` concatenates the children of a `Dict` in the order of the space, a `Discrete(n)` leaf becomes a one-hot vector of length
+`n`.  A key of the space that the value lacks makes Python raise KeyError: `none`.  A `Dict` WITHOUT any sub-space cannot be
+flattened at all (`np.concatenate([])` raises ValueError, in `flatten` and in `flatten_space` alike): `none` / not `flattenable`. -/
 
 def oneHot (n i : Nat) : List Nat := (List.range n).map (fun j => if j = i then 1 else 0)
+
+mutual
+/-- no empty `Dict` anywhere inside: the spaces gymnasium can flatten -/
+def Space.flattenable : Space → Bool
+  | .discrete _ => true
+  | .dict kvs => !kvs.isEmpty && flattenableL kvs
+def flattenableL : List (Key × Space) → Bool
+  | [] => true
+  | p :: rest => p.2.flattenable && flattenableL rest
+end
 
 mutual
 def flatDim : Space → Nat
@@ -421,7 +432,7 @@ end
 mutual
 def flatten : Space → Val → Option (List Nat)
   | .discrete n, .int i => some (oneHot n i)
-  | .dict ss, .dict vs => flattenL ss vs
+  | .dict ss, .dict vs => if ss.isEmpty then none else flattenL ss vs
   | _, _ => none
 def flattenL : List (Key × Space) → List (Key × Val) → Option (List Nat)
   | [], _ => some []
@@ -451,13 +462,16 @@ inductive ApiObs where
   | flat (x : List Nat)
   | raised
 
-/-- `env.observation_space` read while the agent built from `e` is current: the nested space, or (flattened) a Box of this length -/
+/-- `env.observation_space` read while the agent built from `e` is current: the nested space, or (flattened) a Box of this length;
+`raised` when `flatten_space` cannot flatten the nested space -/
 inductive ApiSpace where
   | nested (s : Space)
   | box (n : Nat)
+  | raised
   deriving Inhabited
 
-def EpisodeCfg.space (e : EpisodeCfg) (o : Obs) : ApiSpace := if e.flat then .box (flatDim o.space) else .nested o.space
+def EpisodeCfg.space (e : EpisodeCfg) (o : Obs) : ApiSpace :=
+  if e.flat then (if o.space.flattenable then .box (flatDim o.space) else .raised) else .nested o.space
 
 def EpisodeCfg.getObs (e : EpisodeCfg) (o : Obs) (v : Val) : ApiObs :=
   if e.flat then
